@@ -9,12 +9,21 @@ LEVEL = 'other'
 TARGETS = [('heap', t) for t in (
     'fibonacci.HeapNode.__lt__', 'fibonacci.HeapNode.__le__', 'fibonacci.ReversedComparator.__lt__',
     'fibonacci.ReversedComparator.__le__', 'fibonacci.FibonacciHeap.__len__', 'fibonacci.FibonacciHeap.__bool__',
-    'fibonacci.FibonacciHeap.clear', 'fibonacci.FibonacciHeap.push', 'fibonacci.FibonacciHeap.decrease_key')]
-TRUSTED = ['_cut / _cascading_cut: frame-only contracts (they do not touch keys, deleted flags, _min, _n)',
+    'fibonacci.FibonacciHeap.clear', 'fibonacci.FibonacciHeap.push', 'fibonacci.FibonacciHeap.decrease_key')] + [
+    ('heap_links', t) for t in (
+        'fibonacci.FibonacciHeap._append_root', 'fibonacci.FibonacciHeap._remove_root', 'fibonacci.HeapNode.add_child',
+        'fibonacci.HeapNode.remove_child', 'fibonacci.FibonacciHeap._link', 'fibonacci.FibonacciHeap._cut',
+        'fibonacci.FibonacciHeap._extract_min')]
+TRUSTED = ['_cut / _cascading_cut as used by decrease_key: frame-only contracts (_cut itself is verified in heap_links)',
+           'HeapNode.children yields exactly the nodes whose parent pointer is that node (forest invariant, checked by the bounded run)',
+           '_consolidate: frame only (size, keys, deleted flags untouched)',
            'the user-supplied key function is pure', 'items and keys are modelled as integers']
 ASSUMPTIONS = []
 EXPLANATION = (
-    "Deductive (local lemmas only): HeapNode.__lt__/__le__ restricted to live nodes is the key order; ReversedComparator "
+    "Deductive (local lemmas only): the pointer surgery one step at a time - _append_root / _remove_root splice the root "
+    "ring, add_child / remove_child the child ring, _link and _cut move a node between them resetting parent and mark, with "
+    "verified frames; _extract_min detaches every child of the removed root (no node keeps a parent pointer to it, given the "
+    "forest invariant) and decrements the size exactly when a node is removed; HeapNode.__lt__/__le__ restricted to live nodes is the key order; ReversedComparator "
     "reverses it; __len__/__bool__ read _n; clear resets; push increments _n, splices the node into the root ring next "
     "to the root and keeps _min minimal w.r.t. the new node; decrease_key rejects increases with ValueError, keeps _n and "
     "leaves _min at x or where it was with _min not greater than x. The global heap-order / ring invariant of the "
